@@ -108,6 +108,20 @@ def design_memories(design):
     return out
 
 
+def _set_row(ctx, memdata, row, val):
+    """forces one row of a MemoryData from its bit pattern (structured shapes need a constant of the shape, not an int)."""
+    from amaranth.hdl import ShapeCastable, Shape
+
+    shape = memdata.shape
+    if isinstance(shape, ShapeCastable):
+        val = shape.from_bits(val)
+    else:
+        sh = Shape.cast(shape)
+        if sh.signed and val >= (1 << (sh.width - 1)):
+            val -= 1 << sh.width
+    ctx.set(memdata[row], val)
+
+
 def path_key(paths, sig):
     """Stable textual key of a Signal: its hierarchical name in the deepest fragment that names it."""
     lst = paths.get(sig)
@@ -322,7 +336,7 @@ def simulate(make, deps, wrap, trace, watch, force=None, tm=None):
                         _, hier, row = ent
                         if hier not in mems:
                             raise HarnessError(f"replay: no memory {hier}")
-                        ctx.set(mems[hier][row], val)
+                        _set_row(ctx, mems[hier], row, val)
                 pending = []
                 for s, v in acc.values():
                     sv = v
@@ -398,7 +412,7 @@ def simulate_same(built, trace, watch, force=None):
                     _, hier, row = ent
                     if hier not in mems:
                         raise HarnessError(f"replay: no memory {hier}")
-                    ctx.set(mems[hier][row], val)
+                    _set_row(ctx, mems[hier], row, val)
             pending = []
             for s, v in acc.values():
                 sv = v
